@@ -11,6 +11,7 @@ import json
 
 from . import core
 
+H = (1.0, 0.5, 0.25)          # resolution per axis (Caching.tla: Spacing / 4)
 POLYS = [(2, -3, 1, 1), (5, 2, 0, 0), (1, 0, -2, 0), (-4, 1, 3, -1)]
 
 
@@ -34,8 +35,8 @@ class F:
 def make(dim, n, poly, nbe, fb):
     from cherab.core.math import Caching1D, Caching2D, Caching3D
     f = F(poly, dim)
-    area = tuple(x for _ in range(dim) for x in (0.0, float(n)))
-    res = 1.0 if dim == 1 else tuple(1.0 for _ in range(dim))
+    area = tuple(x for k in range(dim) for x in (0.0, n * H[k]))
+    res = H[0] if dim == 1 else tuple(H[k] for k in range(dim))
     cls = {1: Caching1D, 2: Caching2D, 3: Caching3D}[dim]
     return cls(f, area, res, no_boundary_error=nbe, function_boundaries=fb), f
 
@@ -53,7 +54,7 @@ def replay(rec, ctx):
         for i, e in enumerate(rec["h"]):
             f.calls.clear()
             if e["op"] == "outside":
-                pt = tuple((-0.5 if e["side"] == "below" else n + 0.5) for _ in range(dim))
+                pt = tuple((-0.5 if e["side"] == "below" else n + 0.5) * H[k] for k in range(dim))
                 try:
                     val = cache(*pt)
                     if not nbe:
@@ -64,14 +65,14 @@ def replay(rec, ctx):
                     if nbe:
                         bad("outside-area-raised-despite-no_boundary_error", "")
                 continue
-            pt = tuple(c + q / 4.0 for c, q in zip(e["c"], e["q"]))
+            pt = tuple((c + q / 4.0) * H[k] for k, (c, q) in enumerate(zip(e["c"], e["q"])))
             try:
                 val = cache(*pt)
             except Exception as ex:      # noqa: BLE001
                 bad(f"raised-{type(ex).__name__}", repr(ex)[:200])
                 break
-            asked = [tuple(int(round(x)) for x in call) for call in f.calls]
-            off = max([abs(x - round(x)) for call in f.calls for x in call] or [0.0])
+            asked = [tuple(int(round(x / H[k])) for k, x in enumerate(call)) for call in f.calls]
+            off = max([abs(x / H[k] - round(x / H[k])) for call in f.calls for k, x in enumerate(call)] or [0.0])
             want = [tuple(a) for a in e["asks"]]
             if asked != want or off > 1e-6:
                 bad("sampling-protocol-differs", f"evaluation {i} at {pt}: asked nodes {asked[:8]}.. spec {want[:8]}.. (max node offset {off:.1e})")
@@ -98,7 +99,7 @@ def identities(dim, n):
     for fb in (None, (-50.0, 300.0)):
         cache, f = make(dim, n, lin, False, fb)
         ref = F(lin, dim)
-        pts = list(itertools.product(*[[0.37 + k for k in range(n)] + [n - 0.01, 0.02] for _ in range(dim)]))
+        pts = list(itertools.product(*[[(0.37 + k) * H[ax] for k in range(n)] + [(n - 0.01) * H[ax], 0.02 * H[ax]] for ax in range(dim)]))
         for pt in pts[:400]:
             v, w = cache(*pt), ref(*pt)
             if abs(v - w) > 1e-9 * max(1.0, abs(w)):
@@ -107,8 +108,8 @@ def identities(dim, n):
         cub = POLYS[0]
         cache, f = make(dim, n, cub, False, fb)
         ref = F(cub, dim)
-        cache(*[n / 2.0 + 0.3] * dim)
-        nodes = [c for c in f.calls if all(0.0 <= x <= n for x in c)]
+        cache(*[(n / 2.0 + 0.3) * H[ax] for ax in range(dim)])
+        nodes = [c for c in f.calls if all(0.0 <= x <= n * H[ax] for ax, x in enumerate(c))]
         for nd in nodes[:30]:
             v, w = cache(*nd), ref(*nd)
             if abs(v - w) > 1e-9 * max(1.0, abs(w)):
